@@ -1,16 +1,23 @@
 #!/bin/bash
-# trymut.sh <patch.diff> <budget_s> <prop>... : apply a seeded change to a scratch worktree of /repo's HEAD (never to
-# /repo itself), run the named checks against it, remove the worktree.
+# trymut.sh <patch.diff> <budget_s> <prop>... : apply a change to a scratch worktree of /repo's HEAD (never to
+# /repo itself), run the named checks against it ("all" = every property), remove the worktree.
+# Logs: /tmp/trymut-logs/<patch dir name>/<prop>.log (several invocations may run side by side).
 P=$(readlink -f "$1"); B=$2; shift 2
 HERE=$(cd "$(dirname "$0")/.." && pwd)
 OUT=$(mktemp -d /tmp/verif-mut-XXXXXX)
 W=$OUT/wt
+NAME=$(basename "$(dirname "$P")")
+[ "$NAME" = out ] && NAME=$(basename "$(dirname "$(dirname "$P")")")
+LOGS=/tmp/trymut-logs/$NAME
+mkdir -p "$LOGS"
 git -C /repo worktree add --detach "$W" HEAD >/dev/null 2>&1 || { echo "cannot create worktree"; exit 2; }
 trap 'git -C /repo worktree remove --force "$W" >/dev/null 2>&1; rm -rf "$OUT"' EXIT
 git -C "$W" apply "$P" || { echo "patch does not apply"; exit 2; }
 cd "$HERE"
-for p in "$@"; do
-  VERIF_REPO=$W VERIF_EVIDENCE_DIR=$OUT/ev VERIF_REPLAY_DIR=/tmp/mut-replays ./check $p --budget $B > /tmp/trymut.$p.log 2>&1
-  echo "== $p exit=$? $(grep -c '^VIOLATION' /tmp/trymut.$p.log) violation line(s): $(grep '^VIOLATION' /tmp/trymut.$p.log | head -2 | tr '\n' ' ')"
-  grep "^  clause" /tmp/trymut.$p.log | head -2 | cut -c1-400
+PROPS="$*"
+[ "$PROPS" = all ] && PROPS="C01 C02 C03 C04 C05 C06 C07 C08 C09 C10 C11 C12 C13 C14 C15 C16 C17 C18 C19 C20"
+for p in $PROPS; do
+  VERIF_REPO=$W VERIF_EVIDENCE_DIR=$OUT/ev VERIF_REPLAY_DIR=/tmp/mut-replays/$NAME ./check $p --budget $B > $LOGS/$p.log 2>&1
+  echo "== $NAME $p exit=$? $(grep -c '^VIOLATION' $LOGS/$p.log) violation line(s): $(grep '^VIOLATION' $LOGS/$p.log | head -2 | tr '\n' ' ')"
+  grep "^  clause" $LOGS/$p.log | head -2 | cut -c1-400
 done
